@@ -539,8 +539,12 @@ def check_single(ctx, mods, cname, x, metric, mode, value, dim, tau,
     if embedded:
         kw.update(dim=dim, tau=tau)
     np.random.seed(int(r.integers(1 << 30)))
-    ok, obj = ctx.call(cls, held(ctx, r, x), metric=metric, normalize=normalize,
-                       missing_values=missing, silence_level=3, **kw)
+    # (the switches in a type a caller may hold them in: bool, np.bool_, 0/1)
+    from pvm.gen.held import as_flag
+    ok, obj = ctx.call(cls, held(ctx, r, x), metric=metric,
+                       normalize=as_flag(r, normalize),
+                       missing_values=as_flag(r, missing), silence_level=3,
+                       **kw)
     ctx.evals()
     E = state_matrix(x, dim, tau, normalize)
     if not ok:
@@ -1135,8 +1139,10 @@ def draw_joint(ctx, mods, r, cid, nmax):
     kw = {mode: value}
     if dim is not None:
         kw.update(dim=dim, tau=tau)
+    from pvm.gen.held import as_flag
     ok, obj = ctx.call(mods[cname], held(ctx, r, x), held(ctx, r, y), metric=metric,
-                       normalize=normalize, lag=lag, silence_level=3, **kw)
+                       normalize=as_flag(r, normalize), lag=lag,
+                       silence_level=3, **kw)
     ctx.evals()
     if not ok:
         itags = ["single-node"] if (cname.endswith("Network") and
